@@ -676,6 +676,11 @@ func (vfs *MemFS) Remove(name string) error {
 		return &fs.PathError{Op: op, Path: name, Err: err}
 	}
 
+	if child == node(parent) {
+		// The root directory is its own parent and can't be removed.
+		return &fs.PathError{Op: op, Path: name, Err: vfs.err.InvalidArgument}
+	}
+
 	parent.mu.Lock()
 	defer parent.mu.Unlock()
 
@@ -723,6 +728,11 @@ func (vfs *MemFS) RemoveAll(path string) error {
 
 	if err != vfs.err.FileExists {
 		return &fs.PathError{Op: op, Path: path, Err: err}
+	}
+
+	if child == node(parent) {
+		// The root directory is its own parent and can't be removed.
+		return &fs.PathError{Op: op, Path: path, Err: vfs.err.InvalidArgument}
 	}
 
 	parent.mu.Lock()
